@@ -609,7 +609,11 @@ pub const N_OBSERVERS: usize = 3;
 
 impl Host {
     pub fn new(json_text: &str, meta: Rc<Meta>, cfg: &HostCfg) -> Result<Host, StoryError> {
-        let mut story = Story::new(json_text)?;
+        // bound the global declarations too (a story document may loop in them)
+        Story::verif_set_construction_fuel(Some(cfg.fuel));
+        let story = Story::new(json_text);
+        Story::verif_set_construction_fuel(None);
+        let mut story = story?;
         story.verif_set_story_seed(cfg.seed);
         story.verif_set_fuel(Some(cfg.fuel));
         let log: Log = Rc::new(RefCell::new(vec![]));
